@@ -14,7 +14,7 @@ from __future__ import annotations
 import math
 from typing import Any, List
 
-from .common import call, same, is_symbolic, PathAbort
+from .common import call, same, is_symbolic, PathAbort, replay_tiers
 
 PROP = "C04"
 PREV = ("none", "colon", "lcurly", "comma", "other")
@@ -558,7 +558,7 @@ OUTSIDE = ["tokens longer than the stated number of characters", "recursion dept
 
 def replay(obligation: str, witness):
     from sx.concrete import run_concrete
-    for tier in ("thorough", "quick"):
+    for tier in replay_tiers():
         for ob in obligations(tier):
             if ob.name == obligation:
                 reproduced, msg, _ = run_concrete(ob.harness, witness)
